@@ -522,6 +522,21 @@ func (w *Whisper) fetchRawPoints(archiveID int, fromInterval, untilInterval Time
 
 	fromOffset := r.pointOffsetAt(r.pointIndex(baseInterval, fromInterval))
 	untilOffset := r.pointOffsetAt(r.pointIndex(baseInterval, untilInterval))
+
+	// In a well-formed file the two offsets are exactly len(points) slots apart
+	// (modulo the ring). They are not if the interval in the first slot is not
+	// aligned to the archive's step, i.e. if the file is damaged.
+	slotCount := (int64(untilOffset) - int64(fromOffset)) / pointSize
+	if slotCount <= 0 {
+		slotCount += int64(r.numberOfPoints)
+	}
+	if len(points) == 0 {
+		return points, nil
+	}
+	if slotCount != int64(len(points)) {
+		return nil, fmt.Errorf("corrupt archive%d: slots are not aligned to the interval of the first slot", archiveID)
+	}
+
 	if fromOffset < untilOffset {
 		i := 0
 		for off := fromOffset; off < untilOffset; off += pointSize {
